@@ -12,6 +12,29 @@ FRONT_FRAME = ("error_container.rs", "build.rs", "semantic.rs", "lib.rs", "error
 PARSER_REF = " Every position a feature reports is built from Reference offsets: a Reference rebuilt by the parser carries the sum of the offsets it unwraps (FRAME S-ref in parser.rs / parser/utility.rs)."
 
 
+HANDLER_MODULES = ("goto", "references", "hover", "signature_help", "semantic_tokens", "completion", "fold", "formatting")
+
+
+def feat(*mods):
+    """Instances that sit in the named handler modules, or in no handler module at all (shared infrastructure: doc_cursor,
+    as_pos_range, the tables).  An instance inside another feature's handler belongs to that feature's property."""
+    def f(i):
+        if "anchor" in i.tags:
+            return True
+        here = [m for m in HANDLER_MODULES if ("features::%s::" % m) in i.key or ("features/%s.rs" % m) in i.key]
+        return not here or any(m in mods for m in here)
+    return f
+
+
+def nottag(*tags):
+    s = set(tags)
+    return lambda i: not (s & set(i.tags))
+
+
+def both(f, g):
+    return lambda i: f(i) and g(i)
+
+
 def files(*names):
     s = set(names)
     return lambda i: bool(s & set(i.tags)) or "anchor" in i.tags
@@ -136,9 +159,10 @@ prop("C12", NEC + "Clauses: an entry's name range is resolved against the token 
      "is_default() never holds for locals (ENTRY-KIND); lookups are never unwrapped (LOOKUP-NOPANIC); locations sent out are converted "
      "by as_pos_range only (POS-CONV)." + PARSER_REF,
      [{"rule": "FRAME", "filter": files("goto.rs", "features.rs", "table.rs"), "floor": 16},
-      {"rule": "SCOPE-ORDER", "floor": 18}, {"rule": "ENTRY-GUARD", "floor": 6}, {"rule": "ENTRY-KIND", "floor": 4},
-      {"rule": "LOOKUP-NOPANIC", "floor": 14}, {"rule": "BUILTIN-SET", "floor": 3}, {"rule": "POS-CONV", "floor": 23},
-      {"rule": "CURSOR-CMP", "floor": 1}, {"rule": "IDENT-RANGE", "filter": tag("identexact"), "floor": 1},
+      {"rule": "SCOPE-ORDER", "filter": both(feat("goto"), nottag("typescope", "semantic")), "floor": 24}, {"rule": "ENTRY-GUARD", "floor": 6}, {"rule": "ENTRY-KIND", "floor": 4},
+      {"rule": "LOOKUP-NOPANIC", "filter": feat("goto"), "floor": 8}, {"rule": "BUILTIN-SET", "floor": 3}, {"rule": "POS-CONV", "filter": feat("goto"), "floor": 8},
+       {"rule": "IDENT-RANGE", "filter": both(tag("identexact"), feat("goto")), "floor": 1},
+      {"rule": "CURSOR-CMP", "filter": feat("goto"), "floor": 0},
       {"rule": "FRAME", "filter": files("parser.rs", "utility.rs"), "floor": 3}])
 
 prop("C13", NEC + "Clauses: the finder walkers descend into every statement/expression/type shape that can contain what "
@@ -147,8 +171,9 @@ prop("C13", NEC + "Clauses: the finder walkers descend into every statement/expr
      "(SCOPE-ORDER); every range sent out is converted by as_pos_range (UTF-16 columns) only (POS-CONV)." + PARSER_REF,
      [{"rule": "TRAVERSE", "filter": tag("vars", "calls", "types"), "floor": 51},
       {"rule": "FRAME", "filter": files("references.rs"), "floor": 56}, {"rule": "SAME-FINDER", "floor": 3},
-      {"rule": "SCOPE-ORDER", "floor": 18}, {"rule": "IDENT-RANGE", "floor": 5}, {"rule": "POS-CONV", "floor": 23},
-      {"rule": "CURSOR-CMP", "floor": 1}, {"rule": "BSEARCH-MONO", "floor": 1},
+      {"rule": "SCOPE-ORDER", "filter": both(feat("references"), nottag("typescope", "semantic")), "floor": 10}, {"rule": "IDENT-RANGE", "filter": feat("references"), "floor": 3}, {"rule": "POS-CONV", "filter": feat("references"), "floor": 4},
+       {"rule": "BSEARCH-MONO", "floor": 1},
+      {"rule": "CURSOR-CMP", "filter": feat("references"), "floor": 0},
       {"rule": "FRAME", "filter": files("parser.rs", "utility.rs"), "floor": 3}])
 
 prop("C14", NEC + "Clauses: the call statement is located with node, origin and token slice in one frame on every step of "
@@ -159,9 +184,9 @@ prop("C14", NEC + "Clauses: the call statement is located with node, origin and 
      "(CURSOR-CMP: the commas counted for the active parameter); an entry's documentation is the concatenation of all doc-comment "
      "lines of its declaration (DOC-FLOW)." + PARSER_REF,
      [{"rule": "FRAME", "filter": files("signature_help.rs"), "floor": 8},
-      {"rule": "TRAVERSE", "filter": tag("calls"), "floor": 18}, {"rule": "SCOPE-ORDER", "floor": 18},
-      {"rule": "DISPLAY-FIELDS", "floor": 4}, {"rule": "IDENT-RANGE", "floor": 5}, {"rule": "POS-CONV", "floor": 22},
-      {"rule": "CURSOR-CMP", "floor": 1}, {"rule": "DOC-FLOW", "floor": 1},
+      {"rule": "TRAVERSE", "filter": tag("calls"), "floor": 18}, {"rule": "SCOPE-ORDER", "filter": both(feat("hover", "signature_help"), nottag("typescope", "semantic")), "floor": 10},
+      {"rule": "DISPLAY-FIELDS", "floor": 4}, {"rule": "IDENT-RANGE", "filter": feat("hover", "signature_help"), "floor": 4}, {"rule": "POS-CONV", "filter": feat("hover", "signature_help"), "floor": 4},
+      {"rule": "CURSOR-CMP", "filter": feat("hover", "signature_help"), "floor": 1}, {"rule": "DOC-FLOW", "floor": 1},
       {"rule": "FRAME", "filter": files("parser.rs", "utility.rs"), "floor": 3}])
 
 prop("C15", NEC + "Clauses: legend order = enum discriminants (T6); token positions of different units/frames are not "
@@ -170,14 +195,15 @@ prop("C15", NEC + "Clauses: legend order = enum discriminants (T6); token positi
      "classified through the local-then-global LookupTable (SCOPE-ORDER)." + PARSER_REF,
      [{"rule": "TABLES-SEMTOK", "floor": 24}, {"rule": "FRAME", "filter": files("semantic_tokens.rs"), "floor": 7},
       {"rule": "LEN-UNITS", "filter": tag("lsp"), "floor": 1}, {"rule": "SEMTOK-PAIRING", "floor": 6},
-      {"rule": "SCOPE-ORDER", "floor": 18}, {"rule": "FRAME", "filter": files("parser.rs", "utility.rs"), "floor": 3}])
+      {"rule": "SCOPE-ORDER", "filter": both(feat("semantic_tokens"), nottag("typescope", "semantic")), "floor": 9}, {"rule": "FRAME", "filter": files("parser.rs", "utility.rs"), "floor": 3}])
 
 prop("C16", NEC + "Clauses: every token slice / node pair that drives the position classification is in one frame (FRAME "
      "in completion.rs); variables are proposed from the LookupTable of the procedure that contains the cursor (SCOPE-ORDER); "
      "search_* keep exactly the entry kinds they are named after, from the right table (KIND-FILTER); proposal lists are concatenated, "
      "never merged by label or pruned (NO-MERGE: a variable and a procedure may share a name)." + PARSER_REF,
-     [{"rule": "FRAME", "filter": files("completion.rs"), "floor": 18}, {"rule": "SCOPE-ORDER", "floor": 18},
-      {"rule": "KIND-FILTER", "floor": 7}, {"rule": "NO-MERGE", "floor": 24}, {"rule": "CURSOR-CMP", "floor": 1},
+     [{"rule": "FRAME", "filter": files("completion.rs"), "floor": 18}, {"rule": "SCOPE-ORDER", "filter": both(feat("completion"), nottag("typescope", "semantic")), "floor": 5},
+      {"rule": "KIND-FILTER", "floor": 7}, {"rule": "NO-MERGE", "floor": 24},
+      {"rule": "CURSOR-CMP", "filter": both(feat("completion"), lambda i: "DocumentCursor::ident" not in i.key), "floor": 0},
       {"rule": "FRAME", "filter": files("parser.rs", "utility.rs"), "floor": 3}])
 
 prop("C17", NEC + "Clause: the procedure's token range is made absolute with the offset of the Reference it was reached "
@@ -186,7 +212,7 @@ prop("C17", NEC + "Clause: the procedure's token range is made absolute with the
      "afterwards (ONE-PER-ITEM); the document the ranges are computed from is the client's: batched changes are converted and "
      "applied in the order sent (TEXT-SYNC batch, UPDATE-ORDER); a procedure extends to the next `proc`/`type` *token*, so `proc` is a keyword "
      "only as a whole word (KEYWORD-BOUNDARY)." + PARSER_REF,
-     [{"rule": "FRAME", "filter": files("fold.rs"), "floor": 2}, {"rule": "POS-CONV", "floor": 22},
+     [{"rule": "FRAME", "filter": files("fold.rs"), "floor": 2}, {"rule": "POS-CONV", "filter": feat("fold"), "floor": 6},
       {"rule": "ONE-PER-ITEM", "floor": 3}, {"rule": "SLICE-FIRST", "floor": 20}, {"rule": "BSEARCH-MONO", "floor": 1},
       {"rule": "KEYWORD-BOUNDARY", "floor": 3}, {"rule": "TEXT-SYNC", "filter": tag("batch"), "floor": 4},
       {"rule": "UPDATE-ORDER", "floor": 3}, {"rule": "FRAME", "filter": files("parser.rs", "utility.rs"), "floor": 3}])
